@@ -57,12 +57,12 @@ func init() {
 		"errors.Join":  pureOpaque("errors.Join"),
 		"strconv.Itoa": pureOpaque("strconv.Itoa"),
 
-		"sync.(*Mutex).Lock":      noop,
-		"sync.(*Mutex).Unlock":    noop,
-		"sync.(*RWMutex).Lock":    noop,
-		"sync.(*RWMutex).Unlock":  noop,
-		"sync.(*RWMutex).RLock":   noop,
-		"sync.(*RWMutex).RUnlock": noop,
+		"sync.(*Mutex).Lock":      lockOp(2, "Lock"),
+		"sync.(*Mutex).Unlock":    lockOp(0, "Unlock"),
+		"sync.(*RWMutex).Lock":    lockOp(2, "Lock"),
+		"sync.(*RWMutex).Unlock":  lockOp(0, "Unlock"),
+		"sync.(*RWMutex).RLock":   lockOp(1, "RLock"),
+		"sync.(*RWMutex).RUnlock": lockOp(0, "RUnlock"),
 		"sync.(*Mutex).TryLock":   pureOpaque("sync.(*Mutex).TryLock"),
 		"sync.(*WaitGroup).Add":   noop,
 		"sync.(*WaitGroup).Done":  noop,
